@@ -449,12 +449,21 @@ fn post_tx(tx: Transaction, _: &CaseIn) -> bool {
 		tx.inputs().len() + tx.outputs().len() + tx.kernels().len() > 0
 	});
 	st(S_TX_FEES, || {
-		let _ = (tx.fee(), tx.shifted_fee(), tx.accept_fee(), tx.fee_rate(), tx.weight(), tx.overage(), tx.body.fee_shift());
+		// (is_acceptable: shifted_fee < accept_fee; `fee_rate` = fee / weight is only taken of pool entries, which have
+		// passed `validate` and therefore carry a kernel: see the validate step)
+		let _ = (tx.fee(), tx.shifted_fee(), tx.accept_fee(), tx.weight(), tx.overage(), tx.body.fee_shift());
 		tx.aggregate_fee_fields().is_ok()
 	});
 	inputs_conv(tx.inputs());
 	st(S_KERN_VERIFY, || tx.kernels().iter().take(4).all(|k| k.verify().is_ok()));
-	st(S_TX_VALIDATE, || tx.validate(Weighting::AsTransaction).is_ok());
+	st(S_TX_VALIDATE, || {
+		let ok = tx.validate(Weighting::AsTransaction).is_ok();
+		if ok {
+			// what the pool computes of an admitted entry (Bucket::new)
+			let _ = tx.fee_rate();
+		}
+		ok
+	});
 	a
 }
 fn post_body(b: TransactionBody, _: &CaseIn) -> bool {
@@ -549,7 +558,12 @@ fn post_kernel(k: TxKernel, _: &CaseIn) -> bool {
 	a
 }
 fn post_merkle(p: MerkleProof, c: &CaseIn) -> bool {
-	let id = OutputIdentifier::new(OutputFeatures::Plain, &Commitment::from_vec(vec![9u8; 33]));
+	// the proven element travels in the check parameters of the valid seed (ctx = root || other || element)
+	let id = match c.ctx {
+		Some(x) if x.len() > 64 => ser::deserialize_default::<OutputIdentifier, _>(&mut &x[64..]).ok(),
+		_ => None,
+	}
+	.unwrap_or_else(|| OutputIdentifier::new(OutputFeatures::Plain, &Commitment::from_vec(vec![9u8; 33])));
 	let e = seg_env(c);
 	let a = st(S_MP_VERIFY, || {
 		let a = p.verify(e.root, &id, c.aux & 0xfff).is_ok();
@@ -814,6 +828,21 @@ fn run_push_tx_hex(c: &CaseIn) -> Res {
 	}
 }
 
+/// api/src/foreign_rpc.rs `push_transaction(tx: Transaction, fluff)`: the JSON-RPC parameter is deserialized with the
+/// serde impls of the core types (hex commitments / proofs / signatures / offsets, fee fields) and handed to the pool
+fn run_json_tx(c: &CaseIn) -> Res {
+	let s = input_str(c);
+	alloc_track::begin();
+	match serde_json::from_str::<Transaction>(&s) {
+		Ok(tx) => {
+			let mut res = stream_res(true, 0, 0);
+			res.post_ok = post_tx(tx, c);
+			res
+		}
+		Err(_) => stream_res(false, 0, 0),
+	}
+}
+
 pub fn targets() -> Vec<Target> {
 	vec![
 		// ---- core
@@ -900,6 +929,12 @@ pub fn targets() -> Vec<Target> {
 			name: "api::push_tx_hex",
 			kind: TKind::Str,
 			run: run_push_tx_hex,
+			steps: ST_PUSH,
+		},
+		Target {
+			name: "json::Transaction",
+			kind: TKind::Str,
+			run: run_json_tx,
 			steps: ST_PUSH,
 		},
 		// ---- streams
